@@ -627,4 +627,119 @@ func runDiagStrings(p *Program, r *RuleResult) {
 		}
 	}
 	r.count("decorated-printer call sites", n)
+
+	// the plain printed form omits the mode of the type: where it takes part in a decision,
+	// the mode must be part of the same key
+	var decisionKeys func(v ssa.Value, depth int, out *[]ssa.Value, where *[]string)
+	decisionKeys = func(v ssa.Value, depth int, out *[]ssa.Value, where *[]string) {
+		if depth > 8 || v.Referrers() == nil {
+			return
+		}
+		for _, u := range *v.Referrers() {
+			switch x := u.(type) {
+			case *ssa.BinOp:
+				if x.Op.String() == "+" {
+					decisionKeys(x, depth+1, out, where)
+				} else {
+					*out = append(*out, v)
+					*where = append(*where, fmt.Sprintf("compared (%s) at %s", x.Op, p.instrPos(x)))
+				}
+			case *ssa.Lookup:
+				if x.Index == v {
+					*out = append(*out, v)
+					*where = append(*where, "used as a map key at "+p.instrPos(x))
+				}
+			case *ssa.MapUpdate:
+				if x.Key == v {
+					*out = append(*out, v)
+					*where = append(*where, "used as a map key at "+p.instrPos(x))
+				}
+			case *ssa.Phi:
+				decisionKeys(x, depth+1, out, where)
+			case ssa.CallInstruction:
+				sc := x.Common().StaticCallee()
+				if sc != nil && sc.Name() == "WriteString" && isBufferType(x.Common().Args[0].Type()) {
+					// the buffer's String()
+					if refs := x.Common().Args[0].Referrers(); refs != nil {
+						for _, bu := range *refs {
+							if bc, ok := bu.(*ssa.Call); ok && bc.Common().StaticCallee() != nil && bc.Common().StaticCallee().Name() == "String" && isBufferType(bc.Common().Args[0].Type()) {
+								decisionKeys(bc, depth+1, out, where)
+							}
+						}
+					}
+				}
+			}
+		}
+	}
+	var leafCalls func(v ssa.Value, depth int, out *[]*ssa.Call)
+	leafCalls = func(v ssa.Value, depth int, out *[]*ssa.Call) {
+		if depth > 10 {
+			return
+		}
+		switch x := v.(type) {
+		case *ssa.BinOp:
+			leafCalls(x.X, depth+1, out)
+			leafCalls(x.Y, depth+1, out)
+		case *ssa.Call:
+			*out = append(*out, x)
+			if sc := x.Common().StaticCallee(); sc != nil && sc.Name() == "String" && len(x.Common().Args) == 1 && isBufferType(x.Common().Args[0].Type()) {
+				if refs := x.Common().Args[0].Referrers(); refs != nil {
+					for _, bu := range *refs {
+						if bc, ok := bu.(*ssa.Call); ok && bc.Common().StaticCallee() != nil && bc.Common().StaticCallee().Name() == "WriteString" && len(bc.Common().Args) == 2 {
+							leafCalls(bc.Common().Args[1], depth+1, out)
+						}
+					}
+				}
+			}
+		}
+	}
+	nPlain := 0
+	for _, fn := range p.SrcFuncs {
+		if fn.Pkg == nil || !(fn.Pkg.Pkg.Path() == typesPkg || fn.Pkg.Pkg.Path() == processPkg) {
+			continue
+		}
+		ord := 0
+		for _, c := range p.callsIn(fn) {
+			com := c.Common()
+			call, ok := c.(*ssa.Call)
+			if !ok || !com.IsInvoke() || com.Method.Name() != "String" || !isSessionTypeType(com.Value.Type()) {
+				continue
+			}
+			var keys []ssa.Value
+			var where []string
+			decisionKeys(call, 0, &keys, &where)
+			if len(keys) == 0 {
+				continue
+			}
+			nPlain++
+			ord++
+			construct := fmt.Sprintf("String-result-in-decision#%d", ord)
+			recv := exprKey(com.Value)
+			bad := ""
+			for i, k := range keys {
+				var leaves []*ssa.Call
+				leafCalls(k, 0, &leaves)
+				hasMode := false
+				for _, lc := range leaves {
+					lcom := lc.Common()
+					if !lcom.IsInvoke() || lcom.Method.Name() != "String" {
+						continue
+					}
+					if mc, ok := lcom.Value.(*ssa.Call); ok && mc.Common().IsInvoke() && mc.Common().Method.Name() == "Modality" && exprKey(mc.Common().Value) == recv && recv != "" {
+						hasMode = true
+					}
+				}
+				if !hasMode {
+					bad = where[i]
+				}
+			}
+			if bad != "" {
+				r.add(fnName(fn), construct, Violated, p.instrPos(call),
+					fmt.Sprintf("the printed form of a type is %s without the type's mode in the same key: String() does not print the mode of the type, so two types that differ only in their mode are treated as one", bad))
+			} else {
+				r.add(fnName(fn), construct, Holds, p.instrPos(call), "the key also contains Modality().String() of the same type")
+			}
+		}
+	}
+	r.count("plain printed forms used in a decision", nPlain)
 }
